@@ -102,6 +102,13 @@ def r08a(ctx):
     for p in returning(paths(repo, fwd)):
         t = p.retval
         cmp = [x for x in subterms(t) if x[0] == 'cmp']
+        for x in subterms(t):       # torch.gt(x, t) / x.gt(t): the same comparison
+            if is_call(x, 'torch.gt', 'torch.ge', 'torch.greater', 'torch.greater_equal') and \
+                    len(x[2]) == 2:
+                cmp.append(('cmp', '>', x[2][0], x[2][1]))
+            mcx = method_call(x)
+            if mcx and mcx[1] in ('gt', 'ge') and len(mcx[2]) == 1:
+                cmp.append(('cmp', '>', mcx[0], mcx[2][0]))
         ok = len(cmp) == 1 and cmp[0][1] in ('>', '>=') and \
             cmp[0][2] == ('sub', ('param', 'args'), ('const', 0)) and \
             cmp[0][3] == ('sub', ('param', 'args'), ('const', 1))
